@@ -76,6 +76,8 @@ CONTAINERS = {"list": list, "array": lambda v: np.array(v), "tuple": tuple, "set
               "npint-list": lambda v: [np.int64(i) for i in v], "i32-array": lambda v: np.array(v, dtype=np.int32), "u8-array": lambda v: np.array(v, dtype=np.uint8),
               "reversed-list": lambda v: list(v)[::-1], "repeated-list": lambda v: list(v) + list(v)}
 
+DYADIC = [-1024.5, -3.25, -2.0, -1.0, -0.25, -0.0, 0.0, 0.25, 0.5, 1.0, 1.5, 2.0, 7.5, 2047.75]
+
 SENT_IN = 0.5
 SENT_OUT = (-3.25, 7.5)
 
@@ -99,12 +101,20 @@ def run_block(case):
     variants = [(cont(p) if p else p, cont(r) if r else r) for p, r in variants]
     if case.get("container") and case.get("v") is None:
         V = V[::case.get("stride", 1)]
+    vform = case.get("vform")  # the point array presented as another dtype / memory layout (values exactly representable in it)
+    if vform and case.get("v") is None:
+        V = DYADIC
     for j in range(d):
         for v in V:
             for sent in ((SENT_IN,) + SENT_OUT if roles[j] != "s" else (SENT_IN,)):
                 row = np.array([sent] * d, dtype=float)
                 row[j] = v
                 arr = np.array([row, [SENT_IN] * d]) if two_d else row
+                if vform:
+                    from mc import forms as fm
+                    arr = fm.form(arr, vform)
+                    if arr is None:
+                        continue
                 for pa, ra in variants[:1] if v != V[0] else variants:
                     cc = dict(case, v=float(v).hex(), j=j, sent=sent)
                     keep = arr.copy()
@@ -282,5 +292,10 @@ def plan(ctx):
                 cc.append({"kind": "block", "d": d, "roles": list(roles), "two_d": two_d, "as_array": False, "container": cname, "stride": 1 if th else 4})
     ctx.bounds["index_collection_spellings"] = list(CONTAINERS)
     ctx.explore("index-collection-spellings", cc)
+    vf = [{"kind": "block", "d": d, "roles": list(roles), "two_d": two_d, "as_array": False, "vform": k}
+          for d in (1, 2, 3) for roles in itertools.product("spr", repeat=d) if set(roles) != {"s"} for two_d in (False, True)
+          for k in ("strided", "revstrided", "fortran", "readonly", "f32", "f16", "longdouble")]
+    ctx.bounds["point_array_forms"] = ["strided", "revstrided", "fortran", "readonly", "f32", "f16", "longdouble"]
+    ctx.explore("point-array-forms", vf, chunksize=8)
     # each case runs in ONE process in a fixed order, so state leaking between kernel instances is part of the explored history
     ctx.explore("kernel-usage-of-the-maps", [{"kind": "usage", "kernel": k, "A": None} for k in ("rwm", "tpcn")])
